@@ -22,4 +22,7 @@ def run(ctx) -> None:
     jsonrules.rule_J1(ctx)
     jsonrules.rule_J2(ctx)
     jsonrules.rule_J6(ctx)
+    from .c19 import rule_I3
+    ctx.rules_run.append("I3")
+    rule_I3(ctx)            # emitted keys are found again by from_dict (key table)
     presence.rule_D4(ctx, "J3")
